@@ -183,6 +183,9 @@ def run(ctx):
              Unit("op_av2", fams["op"], "g++", "-O0", IS_AV2),
              Unit("xyzw", fams["xyzw"], "g++", "-O1", ALL), Unit("qwxyz", fams["qwxyz"], "g++", "-O1", ALL), Unit("qxyzw", fams["qxyzw"], "g++", "-O1", ALL),
              Unit("cxx03", fams["cxx03"], "g++", "-O1", ALL)]
+    # the conversion constructors between packed and aligned types store through reinterpreted pointers: the same constructor batches with
+    # g++ -O2, where type-based alias analysis is on
+    units.append(Unit("opO2_ctor", fams["op"], "g++", "-O2", IS_CTOR))
     if not th:
         # quick: the constructors (conversion constructors between packed and aligned types have AVX specialisations for double) at AVX2
         fams["avx2"] = Family(ctx, "avx2", "avx2", False, "clang++", gdir)
